@@ -9,7 +9,7 @@ that hold for every `tol` say so, statements that need exact comparisons are sta
 with a proved counterexample for `tol > 0`.  Vocabulary (`Sol`, `Canon`, `Feasible`, `ObjInv`,
 `basicSolution`): `Rooc/TabSem.lean`.
 -/
-import Rooc.Proofs.TwoPhase5
+import Rooc.Proofs.SepLoop
 import Mathlib.Algebra.Order.Field.Rat
 import Mathlib.Tactic.NormNum
 namespace Rooc.Props.C14
@@ -102,6 +102,41 @@ theorem unbounded_genuine {T : Tab K} {m n : Nat} (hC : Canon T m n) (hF : Feasi
     (hs : stepInner (0:K) T prefer bland = .error e) (M : K) :
     ∃ x : List K, x.length = n ∧ Sol T x ∧ (∀ j, 0 ≤ nth x j) ∧ dot c0 x < M :=
   Unbounded.unbounded_genuine hC hF hO hs M
+
+/-! ### the exact-comparison theorems at a tolerance `tol > 0`, on tolerance-separated tableaus
+
+`Bland.Sep tol T` (decidable): every reduced cost and every entry of `T` is `0` or `≥ tol` in magnitude, two ratios of a
+column are equal or `≥ tol` apart.  On such a tableau every tolerant predicate of `math_utils` decides as exact
+arithmetic would, so the four statements that fail for `tol > 0` in general (see the counterexamples below) hold.
+`SepLoop.SepAll tol prefer T`: every tableau the loop can reach from `T` is separated. -/
+
+/-- **pivot_feasible_sep.**  `tol > 0`, `T` separated and feasible: the row chosen by `find_t` keeps `b ≥ 0`. -/
+theorem pivot_feasible_sep {tol : K} (ht : 0 < tol) {T : Tab K} {m n : Nat} (hR : Rect T m n) (hS : Bland.Sep tol T)
+    (hF : Feasible T) {h : Nat} {prefer : List Nat} {t : Nat} {ratio : K} (hf : findT tol T h prefer = some (t, ratio)) :
+    Feasible (pivot T t h) :=
+  SepLoop.pivot_feasible_sep ht hR hS hF hf
+
+/-- **steps_feasible_monotone_sep.**  `tol > 0`, the tolerance never decides along the run: wherever the loop stops, the
+basic solution is non-negative and the objective `−current_value` has not got worse. -/
+theorem steps_feasible_monotone_sep {tol : K} (ht : 0 < tol) {T : Tab K} {m n : Nat} (hC : Canon T m n) (hF : Feasible T)
+    (stallExtra limit : Nat) (prefer : List Nat) (hS : SepLoop.SepAll tol prefer T) :
+    Feasible (solve tol stallExtra limit prefer T).final ∧ T.value ≤ (solve tol stallExtra limit prefer T).final.value ∧
+      SepLoop.SepAll tol prefer (solve tol stallExtra limit prefer T).final :=
+  SepLoop.solveLoop_feasible_sep ht limit T 0 T.value [] hC hF hS
+
+/-- **finished_optimal_sep.**  `tol > 0`, `T` separated: `Finished` means optimal, exactly. -/
+theorem finished_optimal_sep {tol : K} (ht : 0 < tol) {T T' : Tab K} {m n : Nat} (hC : Canon T m n) (hS : Bland.Sep tol T)
+    {c0 : List K} (hO : ObjInv T c0) {prefer : List Nat} {bland : Bool}
+    (hs : stepInner tol T prefer bland = .ok (.finished, T')) (x : List K) (hxl : x.length = n)
+    (hSol : Sol T x) (hx : NonNeg x) : dot c0 (basicSolution T) ≤ dot c0 x :=
+  SepLoop.finished_optimal_sep ht hC hS hO hs x hxl hSol hx
+
+/-- **unbounded_genuine_sep.**  `tol > 0`, `T` separated and feasible: an `Unbounded` answer is genuine. -/
+theorem unbounded_genuine_sep {tol : K} (ht : 0 < tol) {T : Tab K} {m n : Nat} (hC : Canon T m n) (hS : Bland.Sep tol T)
+    (hF : Feasible T) {c0 : List K} (hO : ObjInv T c0) {prefer : List Nat} {bland : Bool} {e : SimplexErr}
+    (hs : stepInner tol T prefer bland = .error e) (M : K) :
+    ∃ x : List K, x.length = n ∧ Sol T x ∧ (∀ j, 0 ≤ nth x j) ∧ dot c0 x < M :=
+  SepLoop.unbounded_genuine_sep ht hC hS hF hO hs M
 
 /-- **into_tableau_canonical_partial** (direct start).  When `into_tableau` finds an independent column for
 every row (the branch that does not need phase 1), the tableau it returns is in canonical form, has the
